@@ -123,7 +123,7 @@ fn main() {
     // ---- parent mode -----------------------------------------------------
     let t0 = Instant::now();
     let exe = std::env::current_exe().unwrap();
-    let tmp = format!("{VERIF_DIR}/target/shards/{prop}-{}", std::process::id());
+    let tmp = format!("{}/target/shards/{prop}-{}", out_dir(), std::process::id());
     let _ = std::fs::remove_dir_all(&tmp);
     std::fs::create_dir_all(&tmp).unwrap();
     let nshards = jobs.max(1);
